@@ -24,8 +24,18 @@ M32 = 0xFFFFFFFF
 
 
 def build(cfg):
-    """The data memory system exactly as the simulator builds it for these cache options."""
+    """The data memory system exactly as the simulator builds it for these cache options; with cfg["lo"] == 0 the
+    cache classes are instead constructed directly on a full-range flat Memory [0, 2^32) (as the repository's own
+    cache tests do), which makes tag-0 addresses reachable for small geometries."""
     from architecture_simulator.uarch.riscv.riscv_architectural_state import RiscvArchitecturalState
+    if cfg.get("lo", B) == 0:
+        from architecture_simulator.uarch.memory.memory import AddressingType, Memory
+        from architecture_simulator.uarch.memory.write_back_memory_system import WriteBackMemorySystem
+        from architecture_simulator.uarch.memory.write_through_memory_system import WriteThroughMemorySystem
+        from architecture_simulator.uarch.riscv.riscv_performance_metrics import RiscvPerformanceMetrics
+        pm = RiscvPerformanceMetrics()
+        cls = WriteThroughMemorySystem if cfg["type"] == "wt" else WriteBackMemorySystem
+        return cls(Memory(AddressingType.BYTE, 32, True), cfg["idx"], cfg["blk"], cfg["ways"], pm, cfg.get("pen", 0), cfg["repl"]), pm
     st_ = RiscvArchitecturalState(data_cache_options=rvdrive.cache_options(cfg))
     return st_.memory, st_.performance_metrics
 
@@ -78,13 +88,16 @@ def stepper(case, clauses, known_ops=()):
     cfg = case["cfg"]
     mem, pm = build(cfg)
     backing = mem.memory
-    L = riscv_store()
+    LO = cfg.get("lo", B)
+    L = riscv_store(LO)
     models = {"alloc": RefCache(cfg["idx"], cfg["blk"], cfg["ways"], cfg["repl"], cfg["type"]),
               "noalloc": RefCache(cfg["idx"], cfg["blk"], cfg["ways"], cfg["repl"], cfg["type"])}
     pool_words = set()
-    for a, v in case.get("pre", []):
-        mem.write_word(a, _fix(4, v), directly_write_to_lower_memory=True)
-        L.write(a, 4, v & M32)
+    for pre in case.get("pre", []):
+        a, v = pre[0], pre[1]
+        pw = pre[2] if len(pre) > 2 else 4          # preload width (sub-word preloads leave the other bytes unstored)
+        _wr(mem, pw)(a, _fix(pw, v), directly_write_to_lower_memory=True)
+        L.write(a, pw, v & ((1 << (8 * pw)) - 1))
         pool_words.add(a & M32 & ~3)
     if "accounting" in clauses and _stats(mem) != (0, 0, False):
         raise Violation("preload-counted", case, f"counters after preloads: {_stats(mem)}")
@@ -92,7 +105,7 @@ def stepper(case, clauses, known_ops=()):
         a = op[2] & M32
         pool_words.add(a & ~3)
         pool_words.add((a + op[1] - 1) & M32 & ~3)
-    pool_words = {a for a in pool_words if B <= a <= T - 4}
+    pool_words = {a for a in pool_words if LO <= a <= T - 4}
     blk_bytes = 4 << cfg["blk"]
 
     flags = {"hit": False, "miss_full_set": False, "write_miss": False, "eviction": False, "evict_written": False,
@@ -122,7 +135,7 @@ def stepper(case, clauses, known_ops=()):
         rw, w, addr = op[0], op[1], op[2]
         na = addr & M32
         for pa in (na & ~3, (na + w - 1) & M32 & ~3):
-            if B <= pa <= T - 4:
+            if LO <= pa <= T - 4:
                 pool_words.add(pa)
         crossing = (na & 3) + w > 4
         in_range = L.classify(addr, w) == "ok"
@@ -276,6 +289,7 @@ def finish(case, stats, flags, tags, nontrivial):
 
 
 def _invariants(case, cfg, mem, backing, L, pool_words, blk_bytes, where):
+    LO = cfg.get("lo", B)
     R = resident_blocks(mem)
     res_words = {}
     for (s, w), (base, words) in R.items():
@@ -287,7 +301,7 @@ def _invariants(case, cfg, mem, backing, L, pool_words, blk_bytes, where):
             if b != L.read(a, 4):
                 raise Violation("wt-backing-not-current", case, f"{where}: backing word {a:#x} = {b:#x}, logical {L.read(a, 4):#x}")
         for a, v in res_words.items():
-            if B <= a <= T - 4 and v != int(backing.read_word(a)):
+            if LO <= a <= T - 4 and v != int(backing.read_word(a)):
                 raise Violation("wt-resident-block-stale", case, f"{where}: resident word {a:#x} = {v:#x}, backing {int(backing.read_word(a)):#x}")
     else:
         for a in pool_words:
@@ -313,14 +327,29 @@ def _invariants(case, cfg, mem, backing, L, pool_words, blk_bytes, where):
 @st.composite
 def history_case(draw, accepted_only=False, max_ops=60, small=None):
     small = draw(st.booleans()) if small is None else small
-    cfg = draw(cachecfg.small_cache_config() if small else cachecfg.cache_config())
+    cfg = dict(draw(cachecfg.small_cache_config() if small else cachecfg.cache_config()))
+    variant = draw(st.integers(0, 9))
+    if variant == 0:
+        cfg["lo"] = 0                     # cache classes directly on a full-range Memory: tag-0 addresses reachable
+    elif variant == 1 and not small:
+        cfg["idx"] = draw(st.integers(8, 11))   # big geometry: addresses right above 2^14 have tag 0 / small tags
+        cfg["ways"] = min(cfg["ways"], 4)
     nsets = 1 << cfg["idx"]
     blk_bytes = 4 << cfg["blk"]
     stride = nsets * blk_bytes                      # same set, next tag
     sets = draw(st.lists(st.integers(0, nsets - 1), min_size=1, max_size=3 if cfg["ways"] < 4 else 1, unique=True))
     ntags = cfg["ways"] + 2
     region = draw(st.sampled_from([B, B, B + 16 * stride, T - (ntags + 1) * stride]))
+    if cfg.get("lo") == 0:
+        region = draw(st.sampled_from([0, 0, stride, B]))
     region -= region % stride
+    lo = cfg.get("lo", B)
+    if region < lo:
+        # big geometry (one tag spans more than the 16 KiB below the first data address): use tag 0 and only sets
+        # whose addresses are valid
+        region = 0
+        first = -(-lo // blk_bytes)
+        sets = draw(st.lists(st.integers(first, nsets - 1), min_size=1, max_size=2, unique=True))
 
     def addr_s():
         base = st.builds(lambda t, s, o: region + t * stride + s * blk_bytes + o,
@@ -334,22 +363,32 @@ def history_case(draw, accepted_only=False, max_ops=60, small=None):
     values = st.one_of(st.sampled_from([0, 1, 0xFF, 0x80, 0xFFFF, 0x8000, 0xFFFFFFFF, 0x01020304, 0xA1B2C3D4]),
                        st.integers(0, M32))
 
+    def mkpre(t, s, o, v, w, sub):
+        a = region + t * stride + s * blk_bytes + 4 * (o % (blk_bytes // 4))
+        if w == 4:
+            return [a, v]
+        off = sub % 4 if w == 1 else (sub % 2) * 2
+        return [a + off, v & ((1 << (8 * w)) - 1), w]
+
+    pre = draw(st.lists(st.builds(mkpre, st.integers(0, ntags - 1), st.sampled_from(sets), st.integers(0, 7), values,
+                                  st.sampled_from([4, 4, 1, 2]), st.integers(0, 3)), max_size=6))
     @st.composite
     def op(draw):
-        rw = draw(st.sampled_from(["r", "r", "w", "w", "ru"]))
+        rw = draw(st.sampled_from(["r", "r", "w", "w", "ru", "wz"] if pre else ["r", "r", "w", "w", "ru"]))
+        if rw == "wz":
+            # overwrite a preloaded location with zero, same width (a word may become all-zero again)
+            pe = draw(st.sampled_from(pre))
+            return ["w", pe[2] if len(pe) > 2 else 4, pe[0], 0]
         w = draw(st.sampled_from([1, 2, 4, 4]))
         a = draw(addr_s())
         if accepted_only:
             a -= (a % 4 + w - 4) if (a % 4) + w > 4 else 0
-            if not (B <= (a & M32) and (a & M32) + w <= T):
+            if not (lo <= (a & M32) and (a & M32) + w <= T):
                 a = region
         if rw == "w":
             return ["w", w, a, draw(values) & ((1 << (8 * w)) - 1)]
         return ["r", w, a, rw == "r"]
 
-    pre = draw(st.lists(st.builds(lambda t, s, o, v: [region + t * stride + s * blk_bytes + 4 * (o % (blk_bytes // 4)), v],
-                                  st.integers(0, ntags - 1), st.sampled_from(sets), st.integers(0, 7), values),
-                        max_size=6))
     ops = draw(st.lists(op(), min_size=min(max_ops, 1 if cfg["ways"] < 4 else 2 * cfg["ways"] + 2), max_size=max_ops))
     return {"cfg": cfg, "pre": pre, "ops": ops}
 
